@@ -290,6 +290,10 @@ func objTok(b []byte) string {
 	for _, t := range o.Trail {
 		ts = append(ts, itoa(t))
 	}
+	if objForeign(&o) {
+		// marker the model never produces: the object holds a field of some other run's object
+		ts = append(ts, "-777")
+	}
 	return fmt.Sprintf("s%dt%s", o.Seed, strings.Join(ts, "_"))
 }
 
